@@ -750,6 +750,7 @@ class BaseWorkflow(object, metaclass=abc.ABCMeta):
                 self.task_list,
             )
         )
+        finished_task_num = 0
         for task in working_and_zero_task_list:
             # check FINISH condition by each dependency
             # SF: if input task is working
@@ -776,6 +777,7 @@ class BaseWorkflow(object, metaclass=abc.ABCMeta):
                         finished = False
                         break
             if finished:
+                finished_task_num += 1
                 task.state = BaseTaskState.FINISHED
                 task.remaining_work_amount = 0.0
 
@@ -806,6 +808,12 @@ class BaseWorkflow(object, metaclass=abc.ABCMeta):
                             facility.assigned_task_list.remove(task)
 
                     task.allocated_facility_list = []
+
+        # a task finished in this pass may release an FF successor that was visited before it:
+        # repeat until nothing changes, so that the result of one check does not depend on the
+        # listing order of the tasks nor on how often the check is called
+        if finished_task_num > 0:
+            self.__check_finished(time, error_tol=error_tol)
 
     def __set_est_eft_data(self, time: int):
         # tasks are visited in a fixed order (task_list / output_task_list order), not in the
